@@ -251,3 +251,185 @@ Proof.
     - unfold new_env. cbn [snd envs]. apply tget_tset_same. }
   destruct (closure_environment_slots _ _ _ _ Hb) as (_ & Hf). apply Forall2_len in Hf. unfold len. lia.
 Qed.
+
+(* ------------------------------------------------------------------ ENTER *)
+Lemma bind_ok {A B} (m : M A) (f : A -> M B) s b s' :
+  bindM m f s = ROk b s' -> exists a s1, m s = ROk a s1 /\ f a s1 = ROk b s'.
+Proof. unfold bindM. destruct (m s) as [a s1| | |]; try discriminate. eauto. Qed.
+Lemma usub_panic a b s k : usub a b s = RPanic k -> k = 40.
+Proof. unfold usub. destruct (a <? b); [intros [= <-]; reflexivity|discriminate]. Qed.
+Lemma usub_ok a b s c s' : usub a b s = ROk c s' -> s' = s.
+Proof. unfold usub. destruct (a <? b); [discriminate|intros [= _ <-]; reflexivity]. Qed.
+Lemma stack_get_nopanic i s k : stack_get i s = RPanic k -> False.
+Proof. unfold stack_get. destruct (i <? scap s); discriminate. Qed.
+
+(* the loop of build_lexical_environment: when the closure environment has one slot per envmap
+   entry, the only panic is the usize underflow (40), and the result has the same length *)
+Lemma ble_go l cep cslots :
+  forall m slot0 env0 s1,
+    len env0 = len cslots -> slot0 + len m <= len cslots ->
+    (forall k, (fix go (m : list (vcell * bsrc)) (slot : N) (env : list vcell) : M (list vcell) :=
+        match m with
+        | [] => ret env
+        | (_, src) :: r =>
+            match src with
+            | BArgument a =>
+                dom s <- get_vm;
+                dom k <- usub (len (l_args l)) a;
+                dom base <- usub (bp s) k;
+                dom v <- stack_get (base + 1);
+                go r (slot + 1) (list_set env slot v)
+            | BIofArgument _ | BIofEnvironment _ =>
+                match list_get cslots slot with
+                | None => panic 44
+                | Some (VLexPtr _ _) => go r (slot + 1) env
+                | Some _ =>
+                    if slot <? len env then go r (slot + 1) (list_set env slot (VLexPtr cep slot))
+                    else panic 44
+                end
+            | _ => go r (slot + 1) env
+            end
+        end) m slot0 env0 s1 = RPanic k -> k = 40) /\
+    (forall env s1', (fix go (m : list (vcell * bsrc)) (slot : N) (env : list vcell) : M (list vcell) :=
+        match m with
+        | [] => ret env
+        | (_, src) :: r =>
+            match src with
+            | BArgument a =>
+                dom s <- get_vm;
+                dom k <- usub (len (l_args l)) a;
+                dom base <- usub (bp s) k;
+                dom v <- stack_get (base + 1);
+                go r (slot + 1) (list_set env slot v)
+            | BIofArgument _ | BIofEnvironment _ =>
+                match list_get cslots slot with
+                | None => panic 44
+                | Some (VLexPtr _ _) => go r (slot + 1) env
+                | Some _ =>
+                    if slot <? len env then go r (slot + 1) (list_set env slot (VLexPtr cep slot))
+                    else panic 44
+                end
+            | _ => go r (slot + 1) env
+            end
+        end) m slot0 env0 s1 = ROk env s1' -> len env = len cslots).
+Proof.
+  induction m as [|[sym src] r IH]; intros slot0 env0 s1 He Hs.
+  - split; [intros k H; discriminate H|]. intros env s1' H. unfold ret in H. injection H as <- _. exact He.
+  - assert (Hs' : slot0 + 1 + len r <= len cslots).
+    { unfold len in *. cbn [length] in Hs. lia. }
+    assert (Hlt : slot0 < len cslots) by (unfold len in *; cbn [length] in Hs; lia).
+    assert (Hcl : forall w, (len (list_set env0 slot0 w) = len cslots)) by (intros w; rewrite list_set_len; exact He).
+    destruct src.
+    + apply (IH _ _ s1 He Hs').
+    + split.
+      * intros k H. apply bind_panic in H as [H|(s2 & s3 & E & H)]; [discriminate H|]. injection E as <- <-.
+        apply bind_panic in H as [H|(k1 & s3 & E & H)]; [exact (usub_panic _ _ _ _ H)|]. apply usub_ok in E as ->.
+        apply bind_panic in H as [H|(base & s3 & E & H)]; [exact (usub_panic _ _ _ _ H)|]. apply usub_ok in E as ->.
+        apply bind_panic in H as [H|(v & s3 & E & H)]; [destruct (stack_get_nopanic _ _ _ H)|].
+        apply stack_get_inv in E as (_ & ->). apply (IH _ _ s1 (Hcl v) Hs' ). exact H.
+      * intros env s1' H. apply bind_ok in H as (s2 & s3 & E & H). injection E as <- <-.
+        apply bind_ok in H as (k1 & s3 & E & H). apply usub_ok in E as ->.
+        apply bind_ok in H as (base & s3 & E & H). apply usub_ok in E as ->.
+        apply bind_ok in H as (v & s3 & E & H). apply stack_get_inv in E as (_ & ->).
+        apply (IH _ _ s1 (Hcl v) Hs' ) in H. exact H.
+    + destruct (list_get_some cslots slot0 Hlt) as (c & Ec). rewrite Ec.
+      assert (Hlt' : slot0 <? len env0 = true) by (apply N.ltb_lt; lia).
+      destruct c; rewrite ?Hlt'; first [apply (IH _ _ s1 He Hs')|apply (IH _ _ s1 (Hcl _) Hs')].
+    + destruct (list_get_some cslots slot0 Hlt) as (c & Ec). rewrite Ec.
+      assert (Hlt' : slot0 <? len env0 = true) by (apply N.ltb_lt; lia).
+      destruct c; rewrite ?Hlt'; first [apply (IH _ _ s1 He Hs')|apply (IH _ _ s1 (Hcl _) Hs')].
+    + apply (IH _ _ s1 He Hs').
+Qed.
+Lemma ble_facts l cep cslots s1 : len cslots = len (l_envmap l) ->
+  (forall k, build_lexical_environment l cep cslots s1 = RPanic k -> k = 40) /\
+  (forall env s1', build_lexical_environment l cep cslots s1 = ROk env s1' -> len env = len cslots).
+Proof.
+  intros H. unfold build_lexical_environment. cbv zeta.
+  apply (ble_go l cep cslots (l_envmap l) 0 cslots s1 eq_refl). lia.
+Qed.
+
+(* what CLOSURE establishes and ENTER needs: %acc is a closure whose environment object has one
+   slot per envmap entry of its code object *)
+Definition closure_paired (s : vm) (l : lambda) : Prop :=
+  exists lam cep lid ceid cslots,
+    heap_deref (hp s) (acc s) = Ok (VClosure lam cep) /\
+    heap_get (hp s) lam = Ok (VLambda lid) /\ tget (lams (st s)) lid = Some l /\
+    env_at s cep = Some (ceid, cslots) /\ len cslots = len (l_envmap l).
+
+Theorem enter_establishes_ep s l r s' :
+  heap_inv (hp s) -> store_wf (st s) -> closure_paired s l ->
+  enter_frame s = ROk r s' ->
+  ep_ok s' (len (l_envmap l)) /\ exists env, env_at s' (ep s') = Some (next_id (st s), env) /\ len env = len (l_envmap l).
+Proof.
+  intros HI SW (lam & cep & lid & ceid & cslots & Hd & Hlam & Hl & Hce & Hlen) H.
+  destruct (enter_frame_closure s lam cep r s' Hd H)
+    as (lid' & l' & ceid' & cslots' & env & evp & h1 & Hlam' & Hl' & Hce' & Hb & Hput & _ & ->).
+  assert (lid' = lid) by congruence. subst lid'. assert (l' = l) by congruence. subst l'.
+  assert (cslots' = cslots) by congruence. subst cslots'.
+  destruct (ble_facts l cep cslots (enter_s1 s) Hlen) as (_ & Hok). specialize (Hok _ _ Hb).
+  destruct (heap_put_fresh (hp s) _ _ _ HI Hput) as (a & Ea & HI1 & Hna & Ha & Hca & Hl1 & Hother);
+    [discriminate|discriminate|]. injection Ea as <-.
+  assert (Henv : env_at (with_ep (with_heap (with_store (enter_s1 s) (snd (new_env (st s) env))) h1) evp) evp
+                 = Some (next_id (st s), env)).
+  { apply env_at_some. cbn [hp with_ep with_heap st with_store].
+    split; [apply Ha|]. split; [exact Hca|]. unfold new_env. cbn [snd envs]. apply tget_tset_same. }
+  split.
+  - exists (next_id (st s)), env. cbn [ep with_ep]. split; [exact Henv|]. lia.
+  - exists env. cbn [ep with_ep]. split; [exact Henv|]. lia.
+Qed.
+
+Lemma bind_pure_panic {A B} (m : M A) (f : A -> M B) s k :
+  pure m -> bindM m f s = RPanic k -> m s = RPanic k \/ exists a, m s = ROk a s /\ f a s = RPanic k.
+Proof.
+  intros Hp H. specialize (Hp s). unfold bindM in H. destruct (m s) as [a s1| | |]; try discriminate.
+  - subst s1. right. eauto.
+  - left. injection H as ->. reflexivity.
+Qed.
+Lemma stack_get_offset_nopanic z s k : stack_get_offset z s = RPanic k -> False.
+Proof.
+  unfold stack_get_offset. destruct (Z.of_N (sp s) + z <? 0)%Z; [discriminate|]. apply stack_get_nopanic.
+Qed.
+Lemma as_argc_nopanic v s k : as_argc v s = RPanic k -> False.
+Proof. destruct v; discriminate. Qed.
+
+(* ENTER of a paired closure: the ONLY panic left is the usize underflow sp - 4 / bp - k (site 40);
+   in particular neither 44 (slot index) nor 10 (heap index) *)
+Theorem enter_panic_only_underflow s l k :
+  closure_paired s l -> enter_frame s = RPanic k -> k = 40.
+Proof.
+  intros (lam & cep & lid & ceid & cslots & Hd & Hlam & Hl & Hce & Hlen) H.
+  unfold enter_frame in H.
+  rewrite (bind_eq get_vm _ s s s eq_refl) in H.
+  assert (E1 : hderef (acc s) s = ROk (VClosure lam cep) s) by (unfold hderef; rewrite Hd; reflexivity).
+  rewrite (bind_eq _ _ _ _ _ E1) in H.
+  rewrite (bind_eq (ret (lam, Some cep)) _ s (lam, Some cep) s eq_refl) in H.
+  assert (E2 : hget lam s = ROk (VLambda lid) s) by (unfold hget; rewrite Hlam; reflexivity).
+  rewrite (bind_eq _ _ _ _ _ E2) in H. cbn [as_lambda] in H.
+  assert (E3 : get_lambda lid s = ROk l s) by (unfold get_lambda; rewrite Hl; reflexivity).
+  rewrite (bind_eq _ _ _ _ _ E3) in H.
+  apply (bind_pure_panic _ _ _ _ (pure_stack_get_offset _)) in H as [H|(a & _ & H)].
+  { destruct (stack_get_offset_nopanic _ _ _ H). }
+  apply (bind_pure_panic _ _ _ _ (pure_as_argc _)) in H as [H|(argc & _ & H)].
+  { destruct (as_argc_nopanic _ _ _ H). }
+  destruct (negb (argc =? len (l_args l))); [discriminate H|].
+  apply bind_panic in H as [H|(u & s1 & E & H)]; [discriminate H|].
+  unfold push in E. injection E as _ <-.
+  match type of H with bindM get_vm _ ?s1 = _ => rewrite (bind_eq get_vm _ s1 s1 s1 eq_refl) in H end.
+  apply bind_panic in H as [H|(nb & s2 & E & H)]; [exact (usub_panic _ _ _ _ H)|]. apply usub_ok in E as ->.
+  apply bind_panic in H as [H|(u2 & s2 & E & H)]; [discriminate H|].
+  unfold set_bp in E. injection E as _ <-.
+  match type of H with _ ?s3 = _ =>
+    assert (Hce3 : env_at s3 cep = Some (ceid, cslots)) by (rewrite (env_at_ext s s3) by reflexivity; exact Hce) end.
+  rewrite (bind_eq _ _ _ _ _ (hget_env _ _ _ _ Hce3)) in H. cbn [as_lexenv] in H.
+  match type of H with _ ?s3 = _ => rewrite (bind_eq (ret ceid) _ s3 ceid s3 eq_refl) in H end.
+  apply env_at_some in Hce3 as (_ & _ & E4).
+  match type of H with _ ?s3 = _ =>
+    assert (E5 : env_slots ceid s3 = ROk cslots s3) by (unfold env_slots; rewrite E4; reflexivity) end.
+  rewrite (bind_eq _ _ _ _ _ E5) in H.
+  apply bind_panic in H as [H|(env & s4 & E & H)].
+  { exact (proj1 (ble_facts l cep cslots _ Hlen) k H). }
+  apply bind_panic in H as [H|(ev & s5 & E6 & H)]; [unfold env_new in H; destruct (new_env (st s4) env); discriminate H|].
+  apply bind_panic in H as [H|(evp & s6 & E7 & H)]; [unfold hput in H; destruct (heap_put (hp s5) ev); discriminate H|].
+  apply bind_panic in H as [H|(ei & s7 & E8 & H)]; [destruct evp; discriminate H|].
+  apply bind_panic in H as [H|(u3 & s8 & E9 & H)]; discriminate H.
+Qed.
